@@ -2236,6 +2236,13 @@ fn render_table_tree<T: Write, D: TextDecorator>(
             colno += cell.colspan;
         }
     }
+    // A column with content needs at least one cell, whatever the minimum
+    // wrap width, or shrinking could squeeze it (and its text) out entirely.
+    for est in col_sizes.iter_mut() {
+        if est.size > 0 && est.min_width == 0 {
+            est.min_width = 1;
+        }
+    }
     // TODO: remove empty columns
     let tot_size: usize = col_sizes.iter().map(|est| est.size).sum();
     let min_size: usize = col_sizes.iter().map(|est| est.min_width).sum::<usize>()
